@@ -35,7 +35,7 @@ import (
 	"github.com/dolthub/dolt/go/zzverif/vsql"
 )
 
-const c45PushRule = "part (a): one server; per case @@GLOBAL.dolt_replicate_to_remote='origin', dolt_replication_remote_url_template=file://<scratch>/<case>/{database} and dolt_async_replication (on in 1 of 6 cases, then at most 8 groups) are set, then CREATE DATABASE (which creates the remote and installs the push hook); 10-16 drawn statement groups (the first two create a second branch and commit on it) on up to 3 branches: insert + dolt_commit, working-set-only insert, dolt_branch create / -D, dolt_merge of a side branch into main (fast-forward or merge commit), dolt_reset --hard HEAD~1 (non-fast-forward move), dolt_tag, and `away` / `back` (the remote directory is renamed away / back, so pushes fail in between; every case has such a stretch starting at its middle step at the latest, and the step after `away` moves a ref). After every statement the harness collects what was reported: SQL error, SHOW WARNINGS, bytes written to the server's error output (cli.CliErr, where the hook writes 'error pushing: ...'), warning/error-level log entries. Oracle: if nothing was reported then for every ref the statement moved the remote directory (opened in process, no cache) has the same commit as the local database (absent when deleted) — with the remote away and nothing reported the case fails as silent divergence; a working-set-only statement never moves a remote ref; closure walk over the remote finds every address. Async mode: the same condition is awaited for at most 8 s per statement (expired wait = inconclusive, not a violation). Non-trivial: at least 2 branches moved, a non-fast-forward move or a deletion, and at least one statement that ran while the remote was away."
+const c45PushRule = "part (a): one server; per case @@GLOBAL.dolt_replicate_to_remote='origin', dolt_replication_remote_url_template=file://<scratch>/<case>/{database} and dolt_async_replication (25 synchronous cases run first as their own sub-check; 5 asynchronous cases with at most 8 groups run only if those held) are set, then CREATE DATABASE (which creates the remote and installs the push hook); 10-16 drawn statement groups (the first two create a second branch and commit on it) on up to 3 branches: insert + dolt_commit, working-set-only insert, dolt_branch create / -D, dolt_merge of a side branch into main (fast-forward or merge commit), dolt_reset --hard HEAD~1, dolt_commit --amend, dolt_branch -f of a side branch to main / main~1 / a sibling branch (non-fast-forward moves and rewrites whose new head is not taller than the old one), dolt_tag, and `away` / `back` (the remote directory is renamed away / back, so pushes fail in between; every case has such a stretch starting at its middle step at the latest, and the step after `away` moves a ref). After every statement the harness collects what was reported: SQL error, SHOW WARNINGS, bytes written to the server's error output (cli.CliErr, where the hook writes 'error pushing: ...'), warning/error-level log entries. Oracle: if nothing was reported then for every ref the statement moved the remote directory (opened in process, no cache) has the same commit as the local database (absent when deleted) — with the remote away and nothing reported the case fails as silent divergence; a working-set-only statement never moves a remote ref; closure walk over the remote finds every address. Async mode: the same condition is awaited for at most 8 s per statement (expired wait = inconclusive, not a violation). Non-trivial: at least 2 branches moved, a non-fast-forward move or a deletion, and at least one statement that ran while the remote was away."
 
 const c45ReplicaRule = "part (b): one server; per case a primary database with branches main and b1 pushed to its file remote `origin` (explicit dolt_push), then @@GLOBAL.dolt_read_replica_remote='origin' with dolt_replicate_all_heads=1 or dolt_replicate_heads='main' / 'main,b1', then CALL dolt_clone(remote, replica). 10-16 drawn steps: primary commit+push (fast-forward), commit without push, reset --hard HEAD~1 + push --force, new branch + push, deletion of a remote branch that is not in the replicated list; replica reads (SELECT name, hash FROM dolt_branches) by an autocommit session and by a session inside an explicit transaction (begin / read / commit drawn as separate steps), and `settle` (two consecutive reads with no remote change in between; the second is checked). The harness records every head the remote has had per branch (read from the remote directory after every push). Oracle: every (branch, head) any replica read shows is a head the remote has had for that branch; at a settle point the replicated branches have exactly the remote's current heads, in all-heads mode the branch set equals the remote's (deleted branches are gone); for every head shown at a settle point the rows / schemas / log AS OF that head on the replica equal the record taken on the primary when the commit was made, the replica's working set of that branch has the head's rows; closure walk over the replica finds every address. Non-trivial: at least 2 branches replicated and a force-push or deletion happened before a checked settle point."
 
@@ -214,9 +214,19 @@ func TestVerif_C45(t *testing.T) {
 		defer rec.Write(t)
 		env, stop := c45Start(t, "c45a")
 		defer stop()
-		vh.Check(t, "cases", 30, 30, func(rt *rapid.T) {
+		// synchronous cases first and on their own: there every missing push is decidable at once. The
+		// asynchronous cases (bounded waits, expiry = inconclusive) only run when the synchronous ones held,
+		// so that an expired wait can never mask a violation found in synchronous mode.
+		vh.Check(t, "sync", 25, 25, func(rt *rapid.T) {
 			defer env.resetGlobals()
-			c45PushCase(rt, env, rec)
+			c45PushCase(rt, env, rec, false)
+		})
+		if t.Failed() {
+			return
+		}
+		vh.Check(t, "async", 5, 5, func(rt *rapid.T) {
+			defer env.resetGlobals()
+			c45PushCase(rt, env, rec, true)
 		})
 	})
 	t.Run("read_replica", func(t *testing.T) {
@@ -236,7 +246,7 @@ func TestVerif_C45(t *testing.T) {
 // ---------------------------------------------------------------------------------------
 // (a) push on write
 
-func c45PushCase(rt *rapid.T, env *c45Env, rec *vh.Recorder) {
+func c45PushCase(rt *rapid.T, env *c45Env, rec *vh.Recorder, async bool) {
 	srv, admin := env.srv, env.admin
 	db := srv.NewDBName()
 	base := filepath.Join(env.scratch, "remotes-"+db)
@@ -245,7 +255,6 @@ func c45PushCase(rt *rapid.T, env *c45Env, rec *vh.Recorder) {
 	}
 	remoteDir := filepath.Join(base, db)
 	awayDir := remoteDir + ".away"
-	async := rapid.IntRange(0, 5).Draw(rt, "async") == 5 // the largest draw: shrinking moves towards the synchronous mode
 	var log []string
 	fatalf := func(format string, args ...any) {
 		rt.Helper()
@@ -413,7 +422,7 @@ func c45PushCase(rt *rapid.T, env *c45Env, rec *vh.Recorder) {
 	}
 	for i := 0; i < nOps; i++ {
 		lbl := fmt.Sprintf("op%d", i)
-		kinds := []string{"commit", "commit", "commit", "commit", "ws_only", "new_branch", "new_branch", "delete_branch", "delete_branch", "merge", "reset", "reset", "tag", "away", "away", "back"}
+		kinds := []string{"commit", "commit", "commit", "commit", "ws_only", "new_branch", "new_branch", "delete_branch", "delete_branch", "merge", "reset", "reset", "amend", "amend", "branch_force", "branch_force", "tag", "away", "away", "back"}
 		kind := rapid.SampledFrom(kinds).Draw(rt, lbl)
 		br := branches[rapid.IntRange(0, len(branches)-1).Draw(rt, lbl+"_branch")]
 		switch {
@@ -479,6 +488,31 @@ func c45PushCase(rt *rapid.T, env *c45Env, rec *vh.Recorder) {
 			must("CALL dolt_checkout('" + br + "')")
 			run("CALL dolt_reset('--hard', 'HEAD~1')", false)
 			depth[br] = 1 // conservative: do not reset this branch again before it grows
+			classes["non_ff_move"] = true
+		case "amend":
+			// rewrites the tip: the new head has the height of the one it replaces
+			must("CALL dolt_checkout('" + br + "')")
+			nextPK++
+			run(fmt.Sprintf("CALL dolt_commit('--amend', '-m', 'amended %d on %s')", nextPK, br), false)
+			classes["non_ff_move"] = true
+		case "branch_force":
+			// moves a side branch to an older or sibling commit
+			if br == "main" {
+				continue
+			}
+			targets := []string{"main"}
+			if depth["main"] >= 2 {
+				targets = append(targets, "main~1", "main~1")
+			}
+			for _, x := range branches {
+				if x != br && x != "main" {
+					targets = append(targets, x)
+				}
+			}
+			target := rapid.SampledFrom(targets).Draw(rt, lbl+"_target")
+			must("CALL dolt_checkout('main')")
+			run("CALL dolt_branch('-f', '"+br+"', '"+target+"')", false)
+			depth[br] = 1
 			classes["non_ff_move"] = true
 		case "tag":
 			nextPK++
